@@ -554,8 +554,12 @@ class World(BaseWorld):
             self.check_wellformed(op, out, poly, reported)
             self.check_dynamics(op, out, poly, reported)
             digest = self.result_digest(out["res"])
-            if op.get("seed") is None and op.get("rng", {}).get("mode") == "pass":
-                digest = ["unseeded", len(digest)]     # depends on a stack address: verdict only
+        # seed=None streams are seeded from the (simulated) clock AND a stack address: whenever such a stream was
+        # actually consumed (pass-through, or a script that ran dry) the outcome is not replayable -> verdict only
+        unrepl = op.get("seed") is None and (op.get("rng", {}).get("mode", "pass") == "pass" or c["underrun_d"] + c["underrun_i"] > 0)
+        if unrepl:
+            self.probe("unreplayable_unseeded_calls")
+            digest = ["unseeded", len(digest) if isinstance(digest, list) else 0]
         if record:
             rec = dict(op)
             n = max(op.get("num_anneals", 1), 0)
@@ -564,7 +568,7 @@ class World(BaseWorld):
             self.calls.append(rec)
             self.results.append(digest)
         ev.append(digest)
-        ev.append([c["n_double"], c["n_int"], c["clock_reads"], c["allocs"]])
+        ev.append([c["n_double"], c["n_int"], c["clock_reads"], c["allocs"]] if not unrepl else [c["clock_reads"]])
         self.last = (op, digest)
         self.last_underrun = c["underrun_d"] + c["underrun_i"]
         if record:
